@@ -735,7 +735,7 @@ def c02(tier):
             for i in range(0, len(xs), 8192):
                 G.enc(S, sub, 0, T, G.val_tokens(T, xs[i:i + 8192]))
             # clipping: out of range input saturates (incl. +-1.0, +-1.5, +-2.0)
-            xc = [j / float(2 ** (w - 1)) for j in js] + [1.5, -1.5, 2.0, -2.0]
+            xc = [j / float(2 ** (w - 1)) for j in js] + [1.5, -1.5, 2.0, -2.0, 1 - 2.0 ** -24, -(1 - 2.0 ** -24), 1 - 2.0 ** -17, 1 - 2.0 ** -9, -(1 - 2.0 ** -9)]
             for i in range(0, len(xc), 8192):
                 G.enc(S, sub, 0, T, G.val_tokens(T, xc[i:i + 8192]), clip=1)
         # normalisation off: integers pass through unscaled (nearest integer)
@@ -743,7 +743,9 @@ def c02(tier):
     # wider targets: saturation with clipping on
     for sub, w in ((3, 24), (4, 32)):
         for T in "fd":
-            G.enc(S, sub, 0, T, G.val_tokens(T, [1.0, -1.0, 1.5, -1.5, 2.0, -2.0, 0.0, 0.5, -0.5, 0.25]), clip=1)
+            near = [1 - 2.0 ** -24, -(1 - 2.0 ** -24), 1 - 2.0 ** -23, 1 - 2.0 ** -16, -(1 - 2.0 ** -23), 1 - 2.0 ** -10, 0.75, -0.75, 2.0 ** -23, 3 * 2.0 ** -24, -3 * 2.0 ** -24]
+            for big in (0, 1):
+                G.enc(S, sub, big, T, G.val_tokens(T, [1.0, -1.0, 1.5, -1.5, 2.0, -2.0, 0.0, 0.5, -0.5, 0.25] + near), clip=1)
     mcs = [_conv_mc()]
     return core_check("C02", tier, mcs, S.lines, "DESIGN.md section 6 C02",
                       "headerless files of PCM_S8, PCM_U8, PCM_16, PCM_24, PCM_32 (little and big endian): all 65536 short inputs and ~30000 int inputs written, file bytes compared with CodeOfInt/BytesOf; every 8 and 16 bit stored code (boundary + 3000 random codes for 24/32 bit) read through short/int/float/double with normalisation on and off (exact dyadic comparison, float rounding of 32 bit codes modelled); float and double writes of every point of the 8 and 16 bit target grids (nearest integer to x*(2^(w-1)-1), float product rounded to 24 bits = D2), clipping on: saturation incl. +-1.0, +-1.5, +-2.0 for 8/16/24/32 bit; normalisation off: unscaled nearest integer",
